@@ -825,8 +825,16 @@ func processStructProvider(fset *token.FileSet, info *types.Info, call *ast.Call
 			fmt.Errorf(firstArgReqFormat, types.TypeString(structPtr, nil)))
 	}
 
-	stExpr := call.Args[0].(*ast.CallExpr)
-	typeName := qualifiedIdentObject(info, stExpr.Args[0]) // should be either an identifier or selector
+	stExpr, ok := astutil.Unparen(call.Args[0]).(*ast.CallExpr)
+	if !ok || len(stExpr.Args) != 1 {
+		return nil, notePosition(fset.Position(call.Pos()),
+			fmt.Errorf(firstArgReqFormat, types.TypeString(structType, nil)))
+	}
+	typeName, ok := qualifiedIdentObject(info, stExpr.Args[0]).(*types.TypeName) // should be either an identifier or selector
+	if !ok {
+		return nil, notePosition(fset.Position(call.Pos()),
+			fmt.Errorf(firstArgReqFormat, types.TypeString(structType, nil)))
+	}
 	provider := &Provider{
 		Pkg:      typeName.Pkg(),
 		Name:     typeName.Name(),
